@@ -299,12 +299,14 @@ func (p *peerTracker) stop(ctx context.Context) error {
 // blockPeer blocks a peer on the networking level and removes it from the local cache.
 func (p *peerTracker) blockPeer(pID libpeer.ID, reason error) {
 	// add peer to the blacklist, so we can't connect to it in the future.
-	err := p.connGater.BlockPeer(pID)
-	if err != nil {
-		log.Errorw("header/p2p: blocking peer failed", "pID", pID, "err", err)
+	// The connection gater is optional: without one the peer is only disconnected.
+	if p.connGater != nil {
+		if err := p.connGater.BlockPeer(pID); err != nil {
+			log.Errorw("header/p2p: blocking peer failed", "pID", pID, "err", err)
+		}
 	}
 	// close connections to peer.
-	err = p.host.Network().ClosePeer(pID)
+	err := p.host.Network().ClosePeer(pID)
 	if err != nil {
 		log.Errorw("header/p2p: closing connection with peer failed", "pID", pID, "err", err)
 	}
